@@ -72,6 +72,9 @@ type Recorder struct {
 	ErrByte []int
 	conn    *Conn
 	OnMsg   func([]byte)
+	// OnError runs inside ReportConnectionError, as the SHIP layer's reaction does (it closes the
+	// data connection from inside the report, and may have to wait for a writer that holds its close-once)
+	OnError func(error)
 }
 
 func NewRecorder(c *Conn) *Recorder { return &Recorder{start: time.Now(), conn: c} }
@@ -93,7 +96,11 @@ func (r *Recorder) ReportConnectionError(err error) {
 	r.Errors = append(r.Errors, err)
 	r.ErrAt = append(r.ErrAt, time.Since(r.start))
 	r.ErrByte = append(r.ErrByte, r.conn.Consumed())
+	cb := r.OnError
 	r.mu.Unlock()
+	if cb != nil {
+		cb(err)
+	}
 }
 
 func (r *Recorder) Snapshot() (msgs [][]byte, errs []error) {
